@@ -208,9 +208,11 @@ impl<R: Round, const B: Word> FBig<R, B> {
     pub fn with_precision(self, precision: usize) -> Rounded<Self> {
         let new_context = Context::new(precision);
 
-        // shrink if necessary
-        let repr = if self.context.precision > precision {
-            // it also handles unlimited precision
+        // shrink if necessary, an unlimited precision (0) is larger than any limited one
+        let repr = if self.context.precision > precision
+            || (!self.context.is_limited() && !self.repr.is_infinite())
+        {
+            // it also handles unlimited target precision
             new_context.repr_round(self.repr)
         } else {
             Exact(self.repr)
